@@ -614,6 +614,8 @@ func assignIPFromLocalPool(log logr.Logger, podsMapper map[string]*PodRequest, i
 
 	// only pending pods is handled
 	for podID, info := range pendingPods {
+		// only an ipv4 address chosen in this pass is rolled back, never one the pod was bound to before
+		ipv4Chosen := false
 		// choose eni first ...
 		if info.RequireIPv4 && info.ipv4Ref == nil {
 			if info.IPv4 == "" {
@@ -642,6 +644,7 @@ func assignIPFromLocalPool(log logr.Logger, podsMapper map[string]*PodRequest, i
 						}
 						v.IP.PodID = podID
 						v.IP.PodUID = info.PodUID
+						ipv4Chosen = true
 						log.Info("assign ip", "pod", podID, "ip", v.IP.IP, "eni", v.NetworkInterface.ID)
 						break
 					}
@@ -694,7 +697,7 @@ func assignIPFromLocalPool(log logr.Logger, podsMapper map[string]*PodRequest, i
 			}
 
 			if info.ipv6Ref == nil {
-				if info.IPv4 == "" && info.ipv4Ref != nil {
+				if ipv4Chosen && info.ipv4Ref != nil {
 					log.Info("failed to get ipv6 addr, roll back ipv4", "pod", podID, "ip", info.ipv4Ref.IP)
 
 					info.ipv4Ref.IP.PodID = ""
